@@ -628,6 +628,16 @@ def install_seams():
         graph_module.TestGraph.traverse_node = traverse_node
         graph_module.TestGraph.reverse_node = reverse_node
 
+        original_expand = graph_module.TestGraph.get_and_parse_nodes_from_flat_node_and_object
+
+        def expand(self, test_node, test_object, *args, **kwargs):
+            got, parsed = original_expand(self, test_node, test_object, *args, **kwargs)
+            # when a selected (flat) test is expanded for a worker: which composite tests it became
+            CTX.emit("expand", flat=test_node.params["name"], net=test_object.long_suffix,
+                     children=[n.params["name"] for n in list(got) + list(parsed)])
+            return got, parsed
+        graph_module.TestGraph.get_and_parse_nodes_from_flat_node_and_object = expand
+
 
 class IterationBudget(Exception):
     pass
